@@ -66,7 +66,13 @@ type nodeCtx struct {
 	dir   string
 	peer  *wire.Peer
 	logAt int // stderr offset already scanned
+	// state-changing requests this node answered with 200, in order: a violation that depends on the
+	// node's state (e.g. on a transaction injected earlier) replays after them
+	history []*apifix.Req
 }
+
+var mutating = map[string]bool{"/api/v1/injectTransaction": true, "/api/v1/wallet/create": true, "/api/v1/wallet/newAddress": true, "/api/v1/wallet/scan": true,
+	"/api/v1/wallet/update": true, "/api/v1/wallet/unload": true, "/api/v1/wallet/encrypt": true, "/api/v1/wallet/decrypt": true, "/api/v2/wallet/recover": true, "/api/v2/data": true}
 
 func (h *harness) spawn(j job, tag string) (*nodeCtx, error) {
 	dir := filepath.Join(h.tmp, tag)
@@ -223,7 +229,7 @@ func (h *harness) fetchToken(n *nodeCtx) string {
 func (h *harness) send(n *nodeCtx, q *apifix.Req, origin string) (*apifix.Resp, bool) {
 	r := h.r
 	route := routeOf(q)
-	wit := map[string]interface{}{"job": n.job, "request": q, "origin": origin}
+	wit := map[string]interface{}{"job": n.job, "request": q, "origin": origin, "earlier_state_changing_requests": n.history}
 	// the request is on disk before it is sent
 	if b, err := json.Marshal(wit); err == nil {
 		_ = os.WriteFile(filepath.Join(n.dir, "current-request.json"), b, 0644)
@@ -254,6 +260,9 @@ func (h *harness) send(n *nodeCtx, q *apifix.Req, origin string) (*apifix.Resp, 
 			}
 			wit["response_body"] = body
 			h.report("invalid-json-in-200-response", attrs, wit)
+		}
+		if resp.Status == 200 && q.Method != "GET" && mutating[route] && len(n.history) < 400 {
+			n.history = append(n.history, q)
 		}
 		// a handler panic after the headers were written is only visible in the log
 		return resp, true
@@ -762,6 +771,7 @@ type replayDoc struct {
 	Witness struct {
 		Job      job           `json:"job"`
 		Request  *apifix.Req   `json:"request"`
+		Earlier  []*apifix.Req `json:"earlier_state_changing_requests"`
 		WorldDir string        `json:"world_dir"`
 		Options  *node.Options `json:"node_options"`
 	} `json:"witness"`
@@ -790,7 +800,23 @@ func (h *harness) replay(d *replayDoc) {
 		fmt.Fprintln(os.Stderr, "replay:", err)
 		os.Exit(3)
 	}
-	h.send(n, d.Witness.Request, "replay")
+	// a token recorded with a request is stale: send fetches a fresh one where the node checks tokens
+	strip := func(q *apifix.Req) *apifix.Req {
+		hs := q.Headers[:0]
+		for _, hd := range q.Headers {
+			if !strings.EqualFold(hd[0], "X-CSRF-Token") {
+				hs = append(hs, hd)
+			}
+		}
+		q.Headers = hs
+		return q
+	}
+	for _, q := range d.Witness.Earlier {
+		if _, usable := h.send(n, strip(q), "replay-prefix"); !usable {
+			break
+		}
+	}
+	h.send(n, strip(d.Witness.Request), "replay")
 	n.stop()
 	h.scanLog(n)
 	if h.r.Violations() > 0 || h.r.Get("observed.panic") > 0 || h.r.Get("observed.hang") > 0 || h.r.Get("observed.node-died") > 0 {
